@@ -52,12 +52,12 @@ PROPS = {
         "exhaustive": True,
     },
     "C15": {
-        "modes": [["l0", "{seed}", "{tier}"], ["sweep", "C15", "{seed}", "{tier}"]],
+        "modes": [["l0", "{seed}", "{tier}"], ["sweep", "C15", "{seed}", "{tier}"], ["taskset=0-2", "sweep", "C15", "{seed}7", "{tier}"], ["taskset=0", "sweep", "C15", "{seed}9", "quick"]],
         "compare": ("pred", "spec", "stream"),
         "l0_functions": None,
         "l0_nontrivial": ("chunksize", "numthreads", "runner", "nextchunk", "divceil"),
         "nontrivial": nt_all,
-        "rule": "L0: calc_num_threads, calc_chunk_size, Runner::new, do_spawn, next_chunk_size, div_ceil, From<usize> on dense grids (len None/0..70/large, threads 1..20, avail 1..32, every ChunkSize kind with c 1..24(70) and up to usize::MAX), exact equality incl. panics; end-to-end: 8 representative pipelines x len grid x NumThreads {0..9} x {Auto, Exact c, Min c} x random terminal on Vec / exact-size / unknown-size sources, outcome compared with the std oracle (= num_threads(1) result) and with the model; distinct = distinct query / case text",
+        "rule": "L0: calc_num_threads, calc_chunk_size, Runner::new, do_spawn, next_chunk_size, div_ceil, From<usize> on dense grids (len None/0..70/large, threads 1..20, avail 1..32, every ChunkSize kind with c 1..24(70) and up to usize::MAX), exact equality incl. panics; end-to-end: 8 representative pipelines x len grid x NumThreads {0..9} x {Auto, Exact c, Min c} x random terminal on Vec / exact-size / unknown-size sources, outcome compared with the std oracle (= num_threads(1) result) and with the model; the end-to-end part is repeated with the process confined to 3 CPUs and to 1 CPU (taskset), where available_parallelism() caps every computation; distinct = distinct query / case text",
         "explanation": "C15_* prove positivity/totality of the settings arithmetic for all inputs; results are independent of Params by C01-C07 (proved for every worker set). The run ties the arithmetic functions to the code exactly and checks no-panic + equal results on the grid.",
         "trusted_base": TB_COMMON + ["usize is modelled as Nat; overflow is excluded by C15_in_range's stated bounds; extreme chunk sizes are known findings"],
         "assumptions": ASSUME_COMMON,
@@ -74,7 +74,7 @@ PROPS = {
         "assumptions": ASSUME_COMMON,
     },
     "C08": {
-        "modes": [["l0", "{seed}", "{tier}"], ["sweep", "C08", "{seed}", "{tier}"]],
+        "modes": [["l0", "{seed}", "{tier}"], ["sweep", "C08", "{seed}", "{tier}"], ["taskset=0-2", "sweep", "C08", "{seed}7", "quick"]],
         "compare": ("pred", "spec", "acc", "stream"),
         "l0_functions": ("numthreads", "runner", "dospawn", "ofnat_nt", "spawn"),
         "l0_nontrivial": ("numthreads", "runner", "dospawn", "spawn"),
